@@ -36,30 +36,56 @@ def rule_init(ctx):
         return
     store = stores[0]
     v = store.value
-    ok = isinstance(v, ast.Call) and isinstance(v.func, ast.Attribute) and v.func.attr == "astype" and v.args and pkg.resolve_expr(fi.module, fi, v.args[0]) in ("numpy.uint8",)
+    ok = isinstance(v, ast.Call) and isinstance(v.func, ast.Attribute) and v.func.attr == "astype" and bool(v.args) and pkg.resolve_expr(fi.module, fi, v.args[0]) in ("numpy.uint8",)
     ctx.check("C15.1", ok, fi, store, src_of(store), "stored as uint8", "stored data is not normalised with .astype(np.uint8)")
+    # 0/1 membership: a ValueError exit guarded by `not all((data == 0) | (data == 1))`, and every constructing path passed it
     it = Interp(pkg, self_class="binary_sequence", assumptions={"data": ("notinst", "str")})
-    guards = list(find_raise_guards(fi))
+    it.keep_cond_forms = True
+    outs = it.run(fi)
     dform = S("data")
-    found01 = foundnd = None
-    for ifn, test, excs in guards:
-        val = it.eval(test, State({"data": dform}), fi, 0)
-        if val in zero_one_test(dform):
-            found01 = (ifn, excs)
-        s = src_of(test).replace(" ", "")
-        if s in ("data.ndim>1", "data.ndim!=1", "data.ndim>=2"):
-            foundnd = (ifn, excs)
-    for name, g, doc in (("0/1 membership", found01, "elements other than 0/1"), ("dimensionality", foundnd, "data with more than one dimension")):
-        if g is None:
-            ctx.violation("C15.1", fi, fi.node, f"binary_sequence.__init__: {name} guard", f"no guard rejecting {doc}")
-        elif "ValueError" not in g[1]:
-            ctx.violation("C15.1", fi, g[0], f"binary_sequence.__init__: {name} guard", f"raises {g[1]}, documented ValueError")
-        elif g[0].lineno > store.lineno or any(not isinstance(p, (ast.FunctionDef,)) for p in [g[0]._parent]):
-            ctx.violation("C15.1", fi, g[0], f"binary_sequence.__init__: {name} guard", "guard does not precede the store of self.data on every path")
+    tests = zero_one_test(dform)
+    positive = [t.single_atom()[2][0] for t in tests]   # all(...)
+    guard_txt = None
+    for o in outs:
+        if o.kind == "raise" and o.conds:
+            txt, pol = o.conds[-1]
+            cf = it.cond_forms.get(txt)
+            if cf is not None and ((pol and cf in tests) or (not pol and cf in positive)):
+                guard_txt = (txt, pol, o)
+    rets = [o for o in outs if o.kind == "return"]
+    if guard_txt is None:
+        ctx.violation("C15.1", fi, fi.node, "binary_sequence.__init__: 0/1 membership guard", "no guard rejecting elements other than 0/1")
+    elif guard_txt[2].exc != "ValueError":
+        ctx.violation("C15.1", fi, guard_txt[2].node, "binary_sequence.__init__: 0/1 membership guard", f"raises {guard_txt[2].exc}, documented ValueError")
+    elif not rets or any((guard_txt[0], not guard_txt[1]) not in o.conds for o in rets):
+        ctx.violation("C15.1", fi, guard_txt[2].node, "binary_sequence.__init__: 0/1 membership guard", "guard does not precede the store of self.data on every path")
+    else:
+        ctx.holds("C15.1", fi, guard_txt[2].node, "binary_sequence.__init__: 0/1 membership guard", "elements other than 0/1 -> ValueError before the store")
+    # dimensionality: ndim touched only through comparisons with small integers; classes 0, 1, 2, 3
+    probs, where = [], fi.node
+    for nd in (0, 1, 2, 3):
+        it2 = Interp(pkg, self_class="binary_sequence", assumptions={"data": ("notinst", "str"), "data.ndim": nd}, valuation=[(S("data.size"), 1 if nd == 0 else 6)])
+        o2 = it2.run(fi)
+        r2 = [o for o in o2 if o.kind == "return"]
+        if nd >= 2:
+            if r2:
+                probs.append(f"{nd}-dimensional data is accepted")
+            elif not o2 or o2[-1].exc != "ValueError":
+                probs.append(f"{nd}-dimensional data raises {o2[-1].exc if o2 else None}, documented ValueError")
+                where = o2[-1].node if o2 else fi.node
         else:
-            ctx.holds("C15.1", fi, g[0], f"binary_sequence.__init__: {name} guard", f"{doc} -> ValueError before the store")
-    ax = [n for n in body_nodes(fi) if isinstance(n, ast.Assign) and src_of(n.value).replace(" ", "") in ("data[np.newaxis]", "data[None]", "data.reshape(1)", "data.reshape(-1)")]
-    ctx.check("C15.1", bool(ax), fi, ax[0] if ax else fi.node, "0-d input promoted to one element", "data[np.newaxis]", "scalar input is not promoted to a 1-D array")
+            if not r2:
+                probs.append(f"{nd}-dimensional data is rejected")
+                where = o2[-1].node if o2 else fi.node
+            elif nd == 0:
+                st0 = [x for x in it2.store_log if x[5] == 0 and x[2][0] == "attr" and x[2][2] == "data"]
+                okv = [Form.atom(("idx", dform, Const(None))), mk_fn("reshape", [dform, Form.num(1)]), mk_fn("reshape", [dform, Form.num(-1)]), mk_fn("atleast_1d", [dform]), mk_fn("ravel", [dform])]
+                promoted = len(st0) == 1 and any(st0[0][3] == w for w in okv)
+                ctx.check("C15.1", promoted, fi, st0[0][1] if st0 else fi.node, "0-d input promoted to one element", "data[np.newaxis]", "scalar input is not promoted to a 1-D array")
+    if probs:
+        ctx.violation("C15.1", fi, where, "binary_sequence.__init__: dimensionality guard", "no guard rejecting data with more than one dimension: " + "; ".join(probs))
+    else:
+        ctx.holds("C15.1", fi, fi.node, "binary_sequence.__init__: dimensionality guard", "data with more than one dimension -> ValueError before the store (ndim classes 0..3)")
 
 
 def rule_closure(ctx, eff):
@@ -113,6 +139,7 @@ def rule_concat(ctx):
                                      ("list", {"other": ("inst", "list")}, {}, S("other")),
                                      ("ndarray", {"other": ("inst", "numpy.ndarray", "ndarray")}, {}, S("other"))):
             it = Interp(pkg, self_class="binary_sequence", assumptions=ass, param_classes=pc, no_inline=("str2array",))
+            it.keep_cond_forms = True
             outs = it.run(m)
             rets = [o for o in outs if o.kind == "return"]
             case = f"binary_sequence.{meth} [other: {kind}]"
@@ -124,10 +151,27 @@ def rule_concat(ctx):
             want = mk_fn("concatenate", [TupleV([parts[order[0]], parts[order[1]]])])
             ctx.check("C15.4", isinstance(d, Form) and d == want, m, rets[0].node, f"{case}: data = {d!r}", f"concatenate(({order[0]}, {order[1]}))",
                       f"operands are concatenated in the wrong order or altered (expected {want!r})")
-            raises = [o for o in outs if o.kind == "raise"]
-            v01 = [o for o in raises if o.exc == "ValueError" and o.conds and "== 0" in o.conds[-1][0]]
-            vnd = [o for o in raises if o.exc == "ValueError" and o.conds and "ndim" in o.conds[-1][0]]
-            ctx.check("C15.4", bool(v01) and bool(vnd), m, m.node, f"{case}: content/dimension validation", "non-0/1 content and ndim != 1 -> ValueError", "operand validation (0/1 content, one dimension) -> ValueError is missing")
+            raises = [o for o in outs if o.kind == "raise"] + list(it.nested_raises)
+            tests = zero_one_test(oform)
+            positive = [t.single_atom()[2][0] for t in tests]
+            v01 = False
+            for o in raises:
+                if o.exc == "ValueError" and o.conds:
+                    cf = it.cond_forms.get(o.conds[-1][0])
+                    if cf is not None and ((o.conds[-1][1] and cf in tests) or (not o.conds[-1][1] and cf in positive)):
+                        v01 = True
+            # dimensionality decided on ndim classes 1 (accepted) and 2 (rejected)
+            nd_atom = S("other.data.ndim") if kind == "binary_sequence" else S("other.ndim")
+            vnd = True
+            for nd in (1, 2):
+                itn = Interp(pkg, self_class="binary_sequence", assumptions=ass, param_classes=pc, no_inline=("str2array",), valuation=[(nd_atom, nd)])
+                on = itn.run(m)
+                rn = [o for o in on if o.kind == "return"]
+                if nd == 2 and (rn or not on or on[-1].exc != "ValueError"):
+                    vnd = False
+                if nd == 1 and not rn:
+                    vnd = False
+            ctx.check("C15.4", v01 and vnd, m, m.node, f"{case}: content/dimension validation", "non-0/1 content and ndim != 1 -> ValueError", "operand validation (0/1 content, one dimension) -> ValueError is missing")
         it = Interp(pkg, self_class="binary_sequence", assumptions={"other": ("notinst", "binary_sequence", "str", "list", "tuple", "numpy.ndarray", "ndarray")})
         outs = it.run(m)
         ok = bool(outs) and all(o.kind == "raise" for o in outs) and outs[0].exc == "TypeError"
@@ -145,9 +189,10 @@ def rule_counting(ctx):
         alt = S("self.data.size") if name == "len" else None
         ctx.check("C15.5", got is not None and (got == want or (alt is not None and got == alt)), m, m.node, f"binary_sequence.{name}() = {got!r}", "data.size / sum(data)", f"{name}() is not {want!r}")
     m = pkg.find_method("typing", "binary_sequence", "zeros")
-    rets = [n for n in body_nodes(m) if isinstance(n, ast.Return)]
-    ok = len(rets) == 1 and src_of(rets[0].value).replace(" ", "") in ("self.len()-self.ones()", "len(self)-self.ones()", "self.data.size-self.ones()")
-    ctx.check("C15.5", ok, m, m.node, "binary_sequence.zeros()", "len() - ones()", "zeros() is not len() - ones()")
+    rets = [o for o in Interp(pkg, self_class="binary_sequence").run(m) if o.kind == "return"]
+    got = rets[0].value if len(rets) == 1 else None
+    wants = [a - mk_fn("sum", [S("self.data")]) for a in (mk_fn("size", [S("self.data")]), S("self.data.size"), mk_fn("len", [S("self.data")]))]
+    ctx.check("C15.5", isinstance(got, Form) and got in wants, m, m.node, f"binary_sequence.zeros() = {got!r}", "len() - ones()", "zeros() is not len() - ones()")
 
 
 def run(ctx):
